@@ -52,6 +52,9 @@ import (
 	ds "github.com/sergeii/swat4master/internal/core/entities/discovery/status"
 	"github.com/sergeii/swat4master/internal/core/entities/server"
 	"github.com/sergeii/swat4master/internal/core/usecases/listservers"
+	"github.com/sergeii/swat4master/internal/rest"
+	"github.com/sergeii/swat4master/internal/rest/api"
+	"github.com/sergeii/swat4master/internal/settings"
 	"github.com/sergeii/swat4master/pkg/gamespy/browsing/query"
 	"github.com/sergeii/swat4master/pkg/gamespy/browsing/query/filter"
 	"github.com/sergeii/swat4master/pkg/gamespy/crypt"
@@ -176,7 +179,7 @@ type planted struct {
 	svr  server.Server
 }
 
-func parseServer(tok string) (planted, error) {
+func parseServer(tok string, offK int64) (planted, error) {
 	parts := strings.Split(tok, ",")
 	if len(parts) < 3 {
 		return planted{}, fmt.Errorf("server token %q", tok)
@@ -203,7 +206,7 @@ func parseServer(tok string) (planted, error) {
 		if err != nil {
 			return planted{}, err
 		}
-		svr.RefreshedAt = world.Epoch.Add(time.Duration(k * 256))
+		svr.RefreshedAt = world.Epoch.Add(time.Duration((k + offK) * 256))
 	}
 	info, err := parseInfo(parts[3:])
 	if err != nil {
@@ -213,27 +216,74 @@ func parseServer(tok string) (planted, error) {
 	return planted{addr: parts[0], svr: svr}, nil
 }
 
-func setup(nowK, livK int64, srvToks []string) (*world.World, *world.Proc, []planted, error) {
-	opts := world.DefaultOptions()
-	opts.Liveness = time.Duration(livK * 256)
-	w := world.New(opts)
-	p := w.NewProc()
-	w.Advance(time.Duration(nowK * 256))
-	ps := make([]planted, 0, len(srvToks))
+// One world (miniredis + fake clock + logical process) per harness process: a world per case would leave
+// thousands of loopback sockets in TIME-WAIT.  The keyspace is flushed between cases.  The fake clock can
+// only move forward, so a case whose `now` lies before the current clock value is shifted as a whole
+// (clock, refresh times) by `off` ticks of 256ns; every time used is still world.Epoch + k·256ns and the
+// selection only depends on differences.  The clock never exceeds the largest `nowK` seen.
+var shared struct {
+	w    *world.World
+	p    *world.Proc
+	curK int64
+}
+
+func sharedWorld() (*world.World, *world.Proc) {
+	if shared.w == nil {
+		var w *world.World
+		for attempt := 0; ; attempt++ { // the loopback port range may be exhausted for a moment by parallel runs
+			if _, ok := core.Guard(func() { w = world.New(world.DefaultOptions()) }); ok {
+				break
+			}
+			if attempt > 120 {
+				panic("harness: cannot start miniredis")
+			}
+			time.Sleep(500 * time.Millisecond)
+		}
+		shared.w, shared.p = w, w.NewProc()
+	}
+	return shared.w, shared.p
+}
+
+type fixture struct {
+	w        *world.World
+	p        *world.Proc
+	ps       []planted
+	liveness time.Duration
+}
+
+func setup(nowK, livK int64, srvToks []string) (*fixture, error) {
+	w, p := sharedWorld()
+	w.MR.FlushAll()
+	off := int64(0)
+	if nowK < shared.curK {
+		off = shared.curK - nowK
+	}
+	if d := off + nowK - shared.curK; d > 0 {
+		w.Advance(time.Duration(d * 256))
+		shared.curK += d
+	}
+	fx := &fixture{w: w, p: p, liveness: time.Duration(livK * 256)}
 	for _, t := range srvToks {
-		pl, err := parseServer(t)
+		pl, err := parseServer(t, off)
 		if err != nil {
-			w.Close()
-			return nil, nil, nil, err
+			return nil, err
 		}
 		// through the real repository: item + updated/refreshed indexes + the nine status sets
 		if _, err := p.Servers.Add(context.Background(), pl.svr, func(*server.Server) bool { return false }); err != nil {
-			w.Close()
-			return nil, nil, nil, err
+			return nil, err
 		}
-		ps = append(ps, pl)
+		fx.ps = append(fx.ps, pl)
 	}
-	return w, p, ps, nil
+	return fx, nil
+}
+
+// browserHandler / router: the frontends wired as world.NewProc wires them, with this case's liveness.
+func (fx *fixture) browserHandler() browser.Handler {
+	return browser.NewHandler(fx.p.Metrics, fx.p.Logger, fx.w.Clock, fx.p.UC.ListServers, browser.HandlerOpts{Liveness: fx.liveness})
+}
+
+func (fx *fixture) router() *gin.Engine {
+	return rest.NewRouter(api.New(settings.Settings{ServerLiveness: fx.liveness}, fx.p.Logger, fx.p.UC))
 }
 
 // canonListing renders a listing as a multiset in the order of the planted servers.
@@ -307,14 +357,13 @@ func exec1(op string, args []string) []string {
 
 	case op == "list" && len(args) >= 5:
 		nowK, livK, required := i64(args[0]), i64(args[1]), i64(args[2])
-		w, p, ps, err := setup(nowK, livK, args[5:])
+		fx, err := setup(nowK, livK, args[5:])
 		if err != nil {
 			return []string{"bad-op:" + strings.ReplaceAll(err.Error(), " ", "_")}
 		}
-		defer w.Close()
 		q, class := browserQuery(string(core.MustUnHex(args[3])))
-		req := listservers.NewRequest(q, time.Duration(livK*256), ds.DiscoveryStatus(required))
-		res, err := p.UC.ListServers.Execute(context.Background(), req)
+		req := listservers.NewRequest(q, fx.liveness, ds.DiscoveryStatus(required))
+		res, err := fx.p.UC.ListServers.Execute(context.Background(), req)
 		if err != nil {
 			return []string{class, "error:" + strings.ReplaceAll(err.Error(), " ", "_")}
 		}
@@ -322,24 +371,22 @@ func exec1(op string, args []string) []string {
 		for i, s := range res {
 			listed[i] = s.Addr.String()
 		}
-		return []string{class, canonListing(ps, listed)}
+		return []string{class, canonListing(fx.ps, listed)}
 
 	case op == "blist" && len(args) >= 4:
 		nowK, livK := i64(args[0]), i64(args[1])
-		w, p, ps, err := setup(nowK, livK, args[4:])
+		fx, err := setup(nowK, livK, args[4:])
 		if err != nil {
 			return []string{"bad-op:" + strings.ReplaceAll(err.Error(), " ", "_")}
 		}
-		defer w.Close()
-		return browserList(p, ps, core.MustUnHex(args[2]))
+		return browserList(fx, core.MustUnHex(args[2]))
 
 	case op == "rest" && len(args) >= 8:
 		nowK, livK := i64(args[0]), i64(args[1])
-		w, p, ps, err := setup(nowK, livK, args[8:])
+		fx, err := setup(nowK, livK, args[8:])
 		if err != nil {
 			return []string{"bad-op:" + strings.ReplaceAll(err.Error(), " ", "_")}
 		}
-		defer w.Close()
 		vals := url.Values{}
 		for i, name := range []string{"gamevariant", "gamever", "gametype", "nopassworded", "nofull", "noempty"} {
 			if args[2+i] != "~" {
@@ -351,7 +398,7 @@ func exec1(op string, args []string) []string {
 			target += "?" + vals.Encode()
 		}
 		rec := httptest.NewRecorder()
-		p.Router.ServeHTTP(rec, httptest.NewRequest(http.MethodGet, target, nil))
+		fx.router().ServeHTTP(rec, httptest.NewRequest(http.MethodGet, target, nil))
 		code := strconv.Itoa(rec.Code)
 		if rec.Code != http.StatusOK {
 			return []string{code, "-"}
@@ -366,7 +413,7 @@ func exec1(op string, args []string) []string {
 		for i, s := range body {
 			listed[i] = s.Address
 		}
-		return []string{code, canonListing(ps, listed)}
+		return []string{code, canonListing(fx.ps, listed)}
 	}
 	return []string{"bad-op"}
 }
@@ -380,13 +427,32 @@ var (
 
 func listener() *net.TCPListener {
 	lnOnce.Do(func() {
-		l, err := net.ListenTCP("tcp4", &net.TCPAddr{IP: net.IPv4(127, 0, 0, 1)})
-		if err != nil {
-			panic(err)
+		for attempt := 0; ; attempt++ {
+			l, err := net.ListenTCP("tcp4", &net.TCPAddr{IP: net.IPv4(127, 0, 0, 1)})
+			if err == nil {
+				ln = l
+				return
+			}
+			if attempt > 120 {
+				panic(err)
+			}
+			time.Sleep(500 * time.Millisecond)
 		}
-		ln = l
 	})
 	return ln
+}
+
+func dial(to *net.TCPAddr) *net.TCPConn {
+	for attempt := 0; ; attempt++ {
+		c, err := net.DialTCP("tcp4", nil, to)
+		if err == nil {
+			return c
+		}
+		if attempt > 120 {
+			panic(err)
+		}
+		time.Sleep(500 * time.Millisecond)
+	}
 }
 
 var blistChallenge = [8]byte{'q', '!', '8', 'G', 'p', '9', 'R', 'i'}
@@ -404,12 +470,10 @@ func browserRequest(filters []byte) []byte {
 	return body
 }
 
-func browserList(p *world.Proc, ps []planted, filters []byte) []string {
+func browserList(fx *fixture, filters []byte) []string {
+	ps := fx.ps
 	l := listener()
-	client, err := net.DialTCP("tcp4", nil, l.Addr().(*net.TCPAddr))
-	if err != nil {
-		panic(err)
-	}
+	client := dial(l.Addr().(*net.TCPAddr))
 	defer client.Close()
 	conn, err := l.AcceptTCP()
 	if err != nil {
@@ -418,7 +482,7 @@ func browserList(p *world.Proc, ps []planted, filters []byte) []string {
 	if _, err := client.Write(browserRequest(filters)); err != nil {
 		panic(err)
 	}
-	p.Browser.Handle(context.Background(), conn) // reads the request, writes the reply, closes conn
+	fx.browserHandler().Handle(context.Background(), conn) // reads the request, writes the reply, closes conn
 	_ = client.SetReadDeadline(time.Now().Add(5 * time.Second))
 	reply, _ := io.ReadAll(client)
 	if len(reply) == 0 {
